@@ -20,6 +20,9 @@ var (
 	vhBreakSeen []bool           // per step of the debugger run: a DebugBreak event was delivered since the previous step
 	vhBreakPending bool
 	vhStepNode []int // id of the exec closure run at each step
+	vhPanicAt  = -1 // the step (0-based) that panics (-1: none); set by the driver
+	vhMode     = 0  // 0 run, 1 step-into, 2 step-over, 3 step-out pending; set by the driver
+	vhFStep    = 0  // depth at which the pending step request was issued
 )
 
 func vhStep(id int, f *frame) bltn {
@@ -30,6 +33,9 @@ func vhStep(id int, f *frame) bltn {
 	}
 	step := vhSteps
 	vhSteps++
+	if step == vhPanicAt {
+		panic("step panics")
+	}
 	if vhSteps >= vhMaxSteps {
 		return nil
 	}
@@ -128,14 +134,31 @@ func vh_C19_loop() {
 	i := vhNewInterp()
 	n := vhTree(i)
 	fn := &node{interp: i, kind: funcLit}
+	// a step of the program may panic (the caller recovers)
+	run := func(f *frame) {
+		defer func() { recover() }()
+		runCfg(n, f, fn, nil)
+	}
 	// plain run
 	f1 := newFrame(i.frame, 0, i.runid())
-	runCfg(n, f1, fn, nil)
+	run(f1)
 	plain := vhTrace
 	// same program under the debugger, continuing freely
 	vhTrace, vhSteps, vhReplay = nil, 0, true
 	i.debugger = vhDebugger(i)
+	// the session is in any mode: running, or a pending step-into/over/out
+	// request issued at any depth
 	g := &debugRoutine{mode: debugRun, resume: make(chan struct{})}
+	switch vhMode {
+	case 1:
+		g.mode = DebugStepInto
+	case 2:
+		g.mode = DebugStepOver
+	case 3:
+		g.mode = DebugStepOut
+	}
+	g.fStep = vhFStep
+	running := g.mode == debugRun
 	vhG = g
 	// symbolic breakpoints on the three nodes
 	nbreak := 0
@@ -148,7 +171,7 @@ func vh_C19_loop() {
 	f2 := newFrame(i.frame, 0, i.runid())
 	f2.debug = &frameDebugData{g: g}
 	vReach("C19.loop-equiv")
-	runCfg(n, f2, fn, nil)
+	run(f2)
 	dbgTrace := vhTrace
 	// the debugger run is a prefix of the plain run (it may only end early,
 	// when the session is terminated while stopped at a breakpoint) ...
@@ -160,7 +183,7 @@ func vh_C19_loop() {
 	}
 	vAssert("C19.loop-equiv.prefix", ok)
 	// ... and identical when there is no breakpoint at all
-	if nbreak == 0 {
+	if nbreak == 0 && running {
 		vAssert("C19.loop-equiv", len(dbgTrace) == len(plain))
 		vAssert("C19.no-spurious-event", len(vhEvents) == 0)
 	}
@@ -179,6 +202,6 @@ func vh_C19_loop() {
 
 var vhRegistry = map[string]func(){"vh_C19_loop": vh_C19_loop}
 
-var vhIntVars = map[string]*int{"vhMaxSteps": &vhMaxSteps, "vhNExec": &vhNExec}
+var vhIntVars = map[string]*int{"vhMaxSteps": &vhMaxSteps, "vhNExec": &vhNExec, "vhPanicAt": &vhPanicAt, "vhMode": &vhMode, "vhFStep": &vhFStep}
 
 var vhScenarios = map[string]func(map[string]string) bool{}
